@@ -188,7 +188,7 @@ def run_property(pid, tier, seed, root):
             # every canary function must be refuted; every other function must still verify
             canary_names = set()
             for it in res.assembled.items:
-                if it.ident.endswith('__canary') or it.flags.get('canary') == 'self':
+                if it.ident.endswith('__canary') or it.flags.get('canary_self'):
                     canary_names.add(it.emitted_name)
             for m in re.finditer(r'\bfn\s+([A-Za-z0-9_]+__canary)\b', res.assembled.text):
                 canary_names.add(m.group(1))
